@@ -106,20 +106,23 @@ impl DataLog {
         id: ConnectionId,
         filter: &Filter,
     ) -> Option<DataRequest> {
-        let data = self
-            .native
-            .get_mut(*self.filter_indexes.get(filter)?)
-            .unwrap();
-        let waiters = data.waiters.get_mut();
+        // The request of subscription `filter` is parked on the log of the filter with the
+        // `$share/<group>/` prefix stripped, possibly next to another request of the same
+        // connection (`t` and `$share/g/t` share a log): look for this subscription's request.
+        for (_, data) in self.native.iter_mut() {
+            let waiters = data.waiters.get_mut();
+            let position = waiters
+                .iter()
+                .position(|(conn_id, request)| *conn_id == id && &request.filter == filter);
 
-        waiters
-            .iter()
-            .position(|&(conn_id, _)| conn_id == id)
-            .and_then(|index| {
-                waiters
+            if let Some(index) = position {
+                return waiters
                     .swap_remove_back(index)
-                    .map(|(_, data_req)| data_req)
-            })
+                    .map(|(_, data_req)| data_req);
+            }
+        }
+
+        None
     }
 
     // TODO: Currently returning a Option<Vec> instead of Option<&Vec> due to Rust borrow checker
